@@ -580,7 +580,21 @@ def run(ctx):
                     seen += 1
                     ok = ok and bool(prior)
         ctx.ob("C01.R6", fi, ok and seen >= 1, "RepeatUntil.%s hands the predicate the list that already holds the current element" % meth, key="RepeatUntil %s predicate list" % meth)
-    ctx.floor("C01.R6", 28)
+        # a callable predicate is called as it is; anything else is a constant verdict (wrapped so that the call returns it)
+        pred = N.selfattr("predicate")
+        call_ok, nc = True, 0
+        for p in paths:
+            g = p.guards()
+            for e in p.events:
+                if e.kind == "CALL" and len(e["args"]) == 3 and e.loops and not e.depth:
+                    if ("call", ("free", "callable"), (pred,), ()) in g:
+                        nc += 1
+                        call_ok = call_ok and e["func"] == pred
+                    elif N.mk_not(("call", ("free", "callable"), (pred,), ())) in g:
+                        nc += 1
+                        call_ok = call_ok and e["func"][0] == "lam" and e["func"][1] == 3 and e["func"][2] == pred
+        ctx.ob("C01.R6", fi, call_ok and nc >= 2, "RepeatUntil.%s calls a callable predicate itself and treats any other predicate as a constant verdict" % meth, key="RepeatUntil %s predicate kind" % meth)
+    ctx.floor("C01.R6", 30)
 
     # ---------------------------------------------------------------- R7 the delimiters and encodings both directions must agree on (shared rules)
     # VarInt: what _build emits is canonical LEB128 that _parse's loop terminates on (C03.R7); terminated strings: the terminator unit table
